@@ -83,6 +83,7 @@ struct Mod {
     customs: Track<walrus::UntypedCustomSectionId>,
     /// parallel to customs.ids: is the section a RawCustomSection?
     custom_raw: Vec<bool>,
+    custom_payload: Vec<Vec<u8>>,
     counter: u32,
 }
 
@@ -134,6 +135,7 @@ impl Mod {
             locals: Track::default(),
             customs: Track::default(),
             custom_raw: Vec::new(),
+            custom_payload: Vec::new(),
             counter: 0,
         }
     }
@@ -516,9 +518,11 @@ fn add_op(md: &mut Mod, coll: CollKind, arg: u32, counters: &mut Vec<(String, u6
             let name = if arg % 3 == 2 { "cushared".to_string() } else { format!("cu{}", k) };
             let id: walrus::UntypedCustomSectionId = if arg % 2 == 0 {
                 md.custom_raw.push(true);
+                md.custom_payload.push(vec![k as u8]);
                 md.m.customs.add(RawCustomSection { name: name.clone(), data: vec![k as u8] }).into()
             } else {
                 md.custom_raw.push(false);
+                md.custom_payload.push(vec![k as u8, 1]);
                 md.m.customs.add(super::TypedSec { name: name.clone(), payload: vec![k as u8, 1] }).into()
             };
             if let Err(e) = md.customs.add(id, name) {
@@ -712,14 +716,53 @@ fn find_op(md: &mut Mod, coll: CollKind, arg: u32, counters: &mut Vec<(String, u
             }
             let k = arg as usize % md.customs.fp.len();
             let name = md.customs.fp[k].clone();
-            // remove_raw takes the FIRST live RAW section of that name and touches nothing else
-            let first = (0..md.customs.fp.len()).find(|j| md.customs.alive[*j] && md.custom_raw[*j] && md.customs.fp[*j] == name);
-            let got = md.m.customs.remove_raw(&name);
-            if first.is_some() != got.is_some() {
-                return fail("finder_agrees_with_model", format!("customs.remove_raw({:?}) found={} but the model has a live raw section of that name: {}", name, got.is_some(), first.is_some()));
+            // the by-type finders: "if there are multiple custom sections of the type T ... the first one"
+            let first_of = |md: &Mod, raw: bool| (0..md.customs.fp.len()).find(|j| md.customs.alive[*j] && md.custom_raw[*j] == raw);
+            let (want_raw, want_typed) = (first_of(md, true), first_of(md, false));
+            let got_raw = md.m.customs.get_typed::<RawCustomSection>().map(|s| (s.name.clone(), s.data.clone()));
+            let got_raw_mut = md.m.customs.get_typed_mut::<RawCustomSection>().map(|s| (s.name.clone(), s.data.clone()));
+            let got_typed = md.m.customs.get_typed::<super::TypedSec>().map(|s| (s.name.clone(), s.payload.clone()));
+            let got_typed_mut = md.m.customs.get_typed_mut::<super::TypedSec>().map(|s| (s.name.clone(), s.payload.clone()));
+            let model_raw = want_raw.map(|j| (md.customs.fp[j].clone(), md.custom_payload[j].clone()));
+            let model_typed = want_typed.map(|j| (md.customs.fp[j].clone(), md.custom_payload[j].clone()));
+            if got_raw != model_raw || got_raw_mut != model_raw {
+                return fail("finder_agrees_with_model", format!("customs.get_typed::<RawCustomSection>() = {:?} / get_typed_mut = {:?}, the model's first live raw section is {:?}", got_raw, got_raw_mut, model_raw));
             }
-            if let Some(j) = first {
-                md.customs.alive[j] = false;
+            if got_typed != model_typed || got_typed_mut != model_typed {
+                return fail("finder_agrees_with_model", format!("customs.get_typed::<TypedSec>() = {:?} / get_typed_mut = {:?}, the model's first live typed section is {:?}", got_typed, got_typed_mut, model_typed));
+            }
+            bump(counters, "find_typed:customs");
+            match arg % 3 {
+                0 => {
+                    // remove_raw takes the FIRST live RAW section of that name and touches nothing else
+                    let first = (0..md.customs.fp.len()).find(|j| md.customs.alive[*j] && md.custom_raw[*j] && md.customs.fp[*j] == name);
+                    let got = md.m.customs.remove_raw(&name);
+                    if first.is_some() != got.is_some() {
+                        return fail("finder_agrees_with_model", format!("customs.remove_raw({:?}) found={} but the model has a live raw section of that name: {}", name, got.is_some(), first.is_some()));
+                    }
+                    if let Some(j) = first {
+                        md.customs.alive[j] = false;
+                    }
+                }
+                1 => {
+                    // delete_typed removes the first live section of that type and nothing else
+                    let raw = arg % 2 == 0;
+                    let want = first_of(md, raw);
+                    let got: Option<(String, Vec<u8>)> = if raw {
+                        md.m.customs.delete_typed::<RawCustomSection>().map(|s| (s.name.clone(), s.data.clone()))
+                    } else {
+                        md.m.customs.delete_typed::<super::TypedSec>().map(|s| (s.name.clone(), s.payload.clone()))
+                    };
+                    let model = want.map(|j| (md.customs.fp[j].clone(), md.custom_payload[j].clone()));
+                    if got != model {
+                        return fail("finder_agrees_with_model", format!("customs.delete_typed (raw={}) removed {:?}, the model's first live section of that type is {:?}", raw, got, model));
+                    }
+                    if let Some(j) = want {
+                        md.customs.alive[j] = false;
+                        bump(counters, "deleted:customs.delete_typed");
+                    }
+                }
+                _ => {}
             }
         }
         _ => {}
